@@ -74,6 +74,12 @@ func facts(repo string, w io.Writer) error {
 	}
 	fmt.Fprintln(w, "(* pkg/rules/rules.go: source-order events of func matchesAll (empty when the function does not exist) *)")
 	fmt.Fprintln(w, common.EventsCoq("matchesAll_events", evs2))
+	evs3, err := s.CallOrder("filterRulesByMatchers")
+	if err != nil {
+		return err
+	}
+	fmt.Fprintln(w, "(* pkg/rules/rules.go: source-order events of func filterRulesByMatchers *)")
+	fmt.Fprintln(w, common.EventsCoq("filterRules_events", evs3))
 	return nil
 }
 
@@ -471,6 +477,10 @@ func gen(r *rand.Rand, tier string, n int) []any {
 			continue
 		}
 		in.Kind = "rules"
+		if r.Intn(3) == 0 {
+			out = append(out, genSharedValues(r, maxRules))
+			continue
+		}
 		switch r.Intn(4) {
 		case 0:
 		case 1:
@@ -507,6 +517,64 @@ func gen(r *rand.Rand, tier string, n int) []any {
 		out = append(out, in)
 	}
 	return out
+}
+
+// genSharedValues builds a response in which several rules carry the same value
+// strings under DIFFERENT label names (values moved or split between two
+// labels, one of them absent), filtered by selector sets over both names: any
+// per-request bookkeeping keyed on label values alone confuses these rules.
+func genSharedValues(r *rand.Rand, maxRules int) input {
+	in := input{Kind: "rules"}
+	names := append([]string{}, lnames...)
+	r.Shuffle(len(names), func(a, b int) { names[a], names[b] = names[b], names[a] })
+	n1, n2 := names[0], names[1]
+	vals := []string{"x", "y", "xy", "yx", "1", "x1"}
+	v := common.Pick(r, vals...)
+	w := common.Pick(r, vals...)
+	// projections on (n1, n2) whose concatenations coincide pairwise
+	projs := [][2]string{{v, ""}, {"", v}, {v, w}, {v + w, ""}, {"", v + w}, {w, v}}
+	// selector sets over both names
+	mk := func(t int, n, val string) mIn { return mIn{T: t, N: n, V: val} }
+	switch r.Intn(4) {
+	case 0:
+		in.Sets = [][]mIn{{mk(0, n1, v), mk(1, n2, "zzz")}}
+	case 1:
+		in.Sets = [][]mIn{{mk(0, n1, v)}, {mk(0, n2, w), mk(2, n1, ".+")}}
+	case 2:
+		in.Sets = [][]mIn{{mk(2, n1, v+".*"), mk(3, n2, v+".*")}}
+	default:
+		in.Sets = [][]mIn{{mk(0, n2, v)}, {mk(0, n1, v+w)}}
+	}
+	if r.Intn(2) == 0 {
+		in.Replica = []string{"replica"}
+	}
+	ng := 1 + r.Intn(2)
+	k := 0
+	for g := 0; g < ng; g++ {
+		gi := groupIn{File: common.Pick(r, "f1.yaml", "f2.yaml"), Name: common.Pick(r, "g1", "g2")}
+		nr := 2 + r.Intn(maxRules)
+		for i := 0; i < nr; i++ {
+			p := projs[r.Intn(len(projs))]
+			var ls [][2]string
+			if p[0] != "" {
+				ls = append(ls, [2]string{n1, p[0]})
+			}
+			if p[1] != "" {
+				ls = append(ls, [2]string{n2, p[1]})
+			}
+			if r.Intn(3) == 0 {
+				ls = append(ls, [2]string{names[2], common.Pick(r, "x", "{{.x}}")})
+			}
+			k++
+			ru := ruleIn{Alert: r.Intn(2) == 0, Name: fmt.Sprintf("r%d", k), Labels: ls, Query: "up", Eval: 100}
+			if ru.Alert {
+				ru.Dur, ru.State = 60, r.Intn(3)
+			}
+			gi.Rules = append(gi.Rules, ru)
+		}
+		in.Groups = append(in.Groups, gi)
+	}
+	return in
 }
 
 func main() {
